@@ -89,7 +89,7 @@ fn stats_of(b: &Built) -> Stats12 {
     let n = s.total_num_docs().unwrap() as f64;
     let tokens = s.total_num_tokens(b.fields.body).unwrap() as f64;
     let mut df = BTreeMap::new();
-    for t in ["a", "b", "c"] {
+    for t in ["a", "b", "c", "r", "g", "u", "v", "q", "w", "h"] {
         df.insert(t.to_string(), s.doc_freq(&Term::from_field_text(b.fields.body, t)).unwrap() as f64);
     }
     Stats12 { n, avgdl: (tokens as f32 / n as f32) as f64, df }
@@ -246,6 +246,16 @@ pub fn large_queries() -> Vec<(Q, usize)> {
         (Q::Bool(vec![(m, t("g")), (m, Q::Bool(vec![(s, t("u")), (s, t("v")), (s, t("b"))], None))], None), 4),
         (Q::Bool(vec![(m, t("r")), (m, Q::DisMax(vec![t("u"), t("v")], 0.3))], None), 3),
         (Q::Bool(vec![(m, t("g")), (s, Q::Bool(vec![(s, t("u")), (s, t("v"))], None))], None), 3),
+        // ... and a rare union that drives the conjunction: it is advanced into the next window, and seeked
+        // over buckets whenever the frequent clause is in one of its gaps
+        (Q::Bool(vec![(m, t("g")), (m, Q::Bool(vec![(s, t("w")), (s, t("q"))], None))], None), 3),
+        (Q::Bool(vec![(m, Q::Bool(vec![(s, t("w")), (s, t("q"))], None)), (m, t("g"))], None), 3),
+        (Q::Bool(vec![(m, t("g")), (m, Q::DisMax(vec![t("w"), t("q")], 0.3))], None), 3),
+        (Q::Bool(vec![(m, t("g")), (m, Q::Bool(vec![(s, t("w")), (s, t("r"))], None))], None), 3),
+        // (short gaps: most window changes happen by advancing, not by a seek beyond the horizon)
+        (Q::Bool(vec![(m, t("h")), (m, Q::Bool(vec![(s, t("w")), (s, t("q"))], None))], None), 3),
+        (Q::Bool(vec![(m, t("h")), (m, Q::Bool(vec![(s, t("w")), (s, t("r"))], None))], None), 3),
+        (Q::Bool(vec![(m, t("h")), (m, Q::DisMax(vec![t("w"), t("q")], 0.3))], None), 3),
     ]
 }
 
@@ -275,6 +285,16 @@ pub fn large_docs(n: usize) -> Vec<ModelDoc> {
             }
             if i % 300 < 150 {
                 toks.push("g");
+            }
+            // a rare term at the same offsets of every window (period 32), and one drifting against the windows
+            if i % 32 == 5 {
+                toks.push("w");
+            }
+            if i % 200 < 130 {
+                toks.push("h");
+            }
+            if i % 48 == 7 {
+                toks.push("q");
             }
             if i % 2 == 1 && i % 4096 < 4000 {
                 toks.push("u");
@@ -641,7 +661,7 @@ pub fn run(ctx: &Ctx) -> Report {
     rep.set("corpora", corpora.len() as u64);
     rep.set("queries", nq as u64);
     rep.set("fieldnorm_family_max_len", max_len as u64);
-    rep.set("rule", "every multiset of 1..2 (thorough 3) documents over texts of <= 3 tokens over {a,b} x every contiguous segmentation x every delete subset x 24 scoring queries (term, phrase, boolean should / must / must-not, boost, const-score, dis-max with tie breakers, nestings): every collected score vs an independent BM25 evaluation from the searcher statistics, explain().value(), TopDocs for several K, and (without deletes) bit-identical single-clause scores across all segmentations; field-length family: one document per length at / around every quantisation bucket boundary up to the bound; large-segment family: 9000 (thorough 20000) documents in one segment and in two segments with deletes at the 4096-document window boundaries x 15 union / dis-max / minimum-should-match queries (6 of them unions below a conjunction whose other clause is rare or comes in runs, so that the union is seeked over whole buckets inside its window), every document's score, explain and TopDocs; cross-field family: 7 unions / conjunctions / required-optional queries over two text fields with different lengths and a field without frequencies on two 450-document corpora: TopDocs scores for K in {1,3,10,500} equal the exhaustive collector's and explain agrees. Non-trivial: corpus with a non-empty document; distinct by corpus");
+    rep.set("rule", "every multiset of 1..2 (thorough 3) documents over texts of <= 3 tokens over {a,b} x every contiguous segmentation x every delete subset x 24 scoring queries (term, phrase, boolean should / must / must-not, boost, const-score, dis-max with tie breakers, nestings): every collected score vs an independent BM25 evaluation from the searcher statistics, explain().value(), TopDocs for several K, and (without deletes) bit-identical single-clause scores across all segmentations; field-length family: one document per length at / around every quantisation bucket boundary up to the bound; large-segment family: 9000 (thorough 20000) documents in one segment and in two segments with deletes at the 4096-document window boundaries x 22 union / dis-max / minimum-should-match queries (13 of them unions below a conjunction whose other clause is rare or comes in runs, so that the union is seeked over whole buckets inside its window), every document's score, explain and TopDocs; cross-field family: 7 unions / conjunctions / required-optional queries over two text fields with different lengths and a field without frequencies on two 450-document corpora: TopDocs scores for K in {1,3,10,500} equal the exhaustive collector's and explain agrees. Non-trivial: corpus with a non-empty document; distinct by corpus");
     if st.counters.get("large_segment_scores").copied().unwrap_or(0) < 10_000 {
         rep.machinery_errors.push("vacuous: large-segment family scored too few documents".into());
     }
